@@ -94,41 +94,10 @@ impl Stream for C20 {
                 let fdoc = Doc::build(&froot, &records, std::slice::from_ref(&fault));
                 cases.push(Case { kind: "model", labels: labels.clone(), request: fdoc.request(Mode::Omit) });
                 // oracle on a variant with anonymous objects
-                let mut referenced = BTreeSet::new();
-                referenced_ids(&root, &mut referenced);
-                let target_id = root.pre_order()[fault.obj].id.clone();
-                let mut arng = Rng::fork(seed, "c20-anon", (k * per_doc + j) as u64);
-                let mut free = root.clone();
-                anonymise(&mut arng, &mut free, &referenced, target_id.as_deref(), true);
-                let mut arng = Rng::fork(seed, "c20-anon", (k * per_doc + j) as u64);
-                let mut faulted = froot.clone();
-                anonymise(&mut arng, &mut faulted, &referenced, target_id.as_deref(), true);
-                if fault.unknown_type {
-                    let mut idx = fault.obj;
-                    remove_nth(&mut free, &mut idx);
-                }
-                let fd = Doc::build(&faulted, &[], std::slice::from_ref(&fault));
-                let mut ids = vec![];
-                all_ids(&free, &mut ids);
-                let anon = free.pre_order().iter().filter(|o| o.id.is_none()).count();
                 let mut l2 = labels.clone();
+                let (req, anon) = local_case(seed, (k * per_doc + j) as u64, &root, &froot, &fault, true);
                 l2.push(format!("anonymous{}", anon.min(9)));
-                let at = if fault.unknown_type { String::new() } else { target_id.clone().unwrap_or_default() };
-                cases.push(Case {
-                    kind: "oracle",
-                    labels: l2,
-                    request: node(
-                        "c20-local",
-                        vec![
-                            node("src", vec![st(fd.src.clone())]),
-                            node("free", vec![st(free.to_qml())]),
-                            node("ids", ids.into_iter().map(st).collect()),
-                            fault_sexp(&fd, &fault, false),
-                            node("at", vec![st(at)]),
-                            node("lost", vec![st(fault.lhs.split('.').next().unwrap_or("").to_owned())]),
-                        ],
-                    ),
-                });
+                cases.push(Case { kind: "oracle", labels: l2, request: req });
             }
         }
         let _ = (family_of("QWidget"), Family::Widget);
@@ -141,8 +110,97 @@ impl Stream for C20 {
             "passes" => ledger::real_answer(&self.tm, req),
             "c20-local" => local_oracle(&self.tm, args),
             "c20-cells" => cells_observation(&self.tm, args),
+            "c20-witness" => witness_request(args[0].as_str().unwrap()),
             _ => node("bad-request", vec![]),
         }
+    }
+}
+
+
+/// The `c20-local` request for (fault-free root, faulted root, fault); with `anon` a third of the unreferenced objects
+/// lose their ids (the same ones in both documents).  Returns the request and the number of anonymous objects.
+pub fn local_case(seed: u64, index: u64, root: &Obj, froot: &Obj, fault: &crate::ledger::Fault, anon: bool) -> (Sexp, usize) {
+    let mut referenced = BTreeSet::new();
+    referenced_ids(root, &mut referenced);
+    let target_id = root.pre_order()[fault.obj].id.clone();
+    let mut free = root.clone();
+    let mut faulted = froot.clone();
+    if anon {
+        let mut arng = Rng::fork(seed, "c20-anon", index);
+        anonymise(&mut arng, &mut free, &referenced, target_id.as_deref(), true);
+        let mut arng = Rng::fork(seed, "c20-anon", index);
+        anonymise(&mut arng, &mut faulted, &referenced, target_id.as_deref(), true);
+    }
+    if fault.unknown_type {
+        let mut idx = fault.obj;
+        remove_nth(&mut free, &mut idx);
+    }
+    let fd = Doc::build(&faulted, &[], std::slice::from_ref(fault));
+    let mut ids = vec![];
+    all_ids(&free, &mut ids);
+    let n_anon = free.pre_order().iter().filter(|o| o.id.is_none()).count();
+    let at = if fault.unknown_type { String::new() } else { target_id.clone().unwrap_or_default() };
+    let req = node(
+        "c20-local",
+        vec![
+            node("src", vec![st(fd.src.clone())]),
+            node("free", vec![st(free.to_qml())]),
+            node("ids", ids.into_iter().map(st).collect()),
+            fault_sexp(&fd, fault, false),
+            node("at", vec![st(at)]),
+            node("lost", vec![st(fault.lhs.split('.').next().unwrap_or("").to_owned())]),
+        ],
+    );
+    (req, n_anon)
+}
+
+/// hand-written witnesses of the known findings (used once, to write corpus/C20)
+fn witness_request(name: &str) -> Sexp {
+    use crate::ledger::{Fault, Konst, LeafSpec};
+    let root = |children: Vec<Obj>| {
+        let mut r = Obj::new("QWidget").with_id("root");
+        r.children = children;
+        r
+    };
+    let base = LeafSpec::default();
+    let mk = |name: &'static str, obj: usize, lhs: &str, rhs: &str, spec: LeafSpec, att_fault: bool, message: &'static str, reported: (bool, bool, bool)| Fault {
+        name,
+        obj,
+        lhs: lhs.into(),
+        rhs: rhs.into(),
+        spec,
+        map_fault: false,
+        att_fault,
+        att_unresolved: false,
+        unknown_type: false,
+        message,
+        reported,
+    };
+    match name {
+        // F19
+        "duplicated-attached" => {
+            let grid = |a: Obj| root(vec![Obj::new("QGridLayout").with_id("g").bind("columns", "2").child(a).child(Obj::new("QLabel").with_id("b"))]);
+            let free = grid(Obj::new("QLabel").with_id("a").bind("QLayout.row", "3"));
+            let faulted = grid(Obj::new("QLabel").with_id("a").bind("QLayout.row", "3").bind("QLayout.row", "3"));
+            let f = mk("duplicated-attached-binding", 2, "QLayout.row", "3", base.clone(), true, "duplicated binding", (true, true, true));
+            local_case(0, 0, &free, &faulted, &f, false).0
+        }
+        // F20
+        "separator-plus-fault" => {
+            let free = root(vec![Obj::new("QAction").with_id("a").bind("separator", "true")]);
+            let faulted = root(vec![Obj::new("QAction").with_id("a").bind("separator", "true").bind("text", "42")]);
+            let f = mk("faulty-binding-on-separator", 1, "text", "42", LeafSpec { konst: Konst::Fail, ret_ok: false, ..base.clone() }, false, "expression type mismatch", (true, true, true));
+            local_case(0, 0, &free, &faulted, &f, false).0
+        }
+        // F21
+        "dynamic-type-mismatch" => {
+            let doc = |l: Obj| root(vec![Obj::new("QSpinBox").with_id("srcSpin"), l]);
+            let free = doc(Obj::new("QLabel").with_id("l"));
+            let faulted = doc(Obj::new("QLabel").with_id("l").bind("text", "srcSpin.value"));
+            let f = mk("dynamic-type-mismatch", 2, "text", "srcSpin.value", LeafSpec { konst: Konst::Dyn, ret_ok: false, ..base.clone() }, false, "expression type mismatch", (true, true, false));
+            local_case(0, 0, &free, &faulted, &f, false).0
+        }
+        _ => node("bad-request", vec![]),
     }
 }
 
@@ -152,18 +210,39 @@ fn arg<'a>(args: &'a [Sexp], tag: &str) -> Vec<Sexp> {
 
 const OBJECT_TAGS: [&str; 4] = ["widget", "layout", "spacer", "action"];
 
-/// canonical rendering of a .ui tree: generated names replaced by "_", the faulted object's own values blanked
-fn canon(e: &xml::Element, ids: &BTreeSet<String>, at: &str, out: &mut String, own: &mut BTreeSet<String>) {
+#[derive(Clone, Copy, Default)]
+struct CanonOpts {
+    /// blank row/column of every item of the layout that holds the faulted object
+    blank_sibling_cells: bool,
+    /// treat the faulted action as a static separator: its <action> element is dropped, its addaction reads "separator"
+    as_separator: bool,
+}
+
+const ITEM_OWN_ATTRS: [&str; 5] = ["alignment", "row", "column", "rowspan", "colspan"];
+
+/// canonical rendering of a .ui tree: generated names replaced by "_"; the faulted object's own values (properties,
+/// attributes, addactions, item-model rows, and the attributes of the <item> that wraps it) are left out
+fn canon(e: &xml::Element, ids: &BTreeSet<String>, at: &str, opts: CanonOpts, item_mode: u8, out: &mut String, own: &mut BTreeSet<String>) {
     let is_obj = OBJECT_TAGS.contains(&e.name.as_str());
     let name = e.attr("name").unwrap_or("");
     let faulted = is_obj && !at.is_empty() && name == at;
     out.push('<');
     out.push_str(&e.name);
     for (k, v) in &e.attrs {
-        let v = if (is_obj || e.name == "addaction") && k == "name" && !ids.contains(v) && v != "separator" { "_" } else { v.as_str() };
+        if e.name == "item" && item_mode == 1 && ITEM_OWN_ATTRS.contains(&k.as_str()) {
+            continue; // values of the faulted object's own attached bindings
+        }
+        if e.name == "item" && item_mode == 2 && (k == "row" || k == "column") {
+            continue;
+        }
+        let mut v = if (is_obj || e.name == "addaction") && k == "name" && !ids.contains(v) && v != "separator" { "_" } else { v.as_str() };
+        if opts.as_separator && e.name == "addaction" && k == "name" && v == at {
+            v = "separator";
+        }
         out.push_str(&format!(" {k}=\"{v}\""));
     }
     out.push('>');
+    let holds_at = e.name == "layout" && !at.is_empty() && e.children_named("item").any(|it| it.elems().any(|c| c.attr("name") == Some(at)));
     for c in &e.children {
         match c {
             xml::Node::Elem(ce) => {
@@ -177,7 +256,21 @@ fn canon(e: &xml::Element, ids: &BTreeSet<String>, at: &str, out: &mut String, o
                 if faulted && ce.name == "item" && e.name != "layout" {
                     continue; // item-model rows of the faulted object (its `model` value)
                 }
-                canon(ce, ids, at, out, own);
+                if opts.as_separator && ce.name == "action" && ce.attr("name") == Some(at) {
+                    continue;
+                }
+                let mode = if ce.name == "item" && holds_at {
+                    if ce.elems().any(|x| x.attr("name") == Some(at)) {
+                        1
+                    } else if opts.blank_sibling_cells {
+                        2
+                    } else {
+                        0
+                    }
+                } else {
+                    0
+                };
+                canon(ce, ids, at, opts, mode, out, own);
             }
             xml::Node::Text(t) => {
                 if !t.trim().is_empty() {
@@ -189,6 +282,19 @@ fn canon(e: &xml::Element, ids: &BTreeSet<String>, at: &str, out: &mut String, o
         }
     }
     out.push_str(&format!("</{}>", e.name));
+}
+
+/// (name, row, column) of the items of the layout that holds `at`
+fn cells_around(ui: &xml::Element, at: &str) -> Vec<(String, String, String)> {
+    for lay in ui.descendants().into_iter().filter(|e| e.name == "layout") {
+        if lay.children_named("item").any(|it| it.elems().any(|c| c.attr("name") == Some(at))) {
+            return lay
+                .children_named("item")
+                .map(|i| (i.elems().next().and_then(|c| c.attr("name")).unwrap_or("").to_owned(), i.attr("row").unwrap_or("-").to_owned(), i.attr("column").unwrap_or("-").to_owned()))
+                .collect();
+        }
+    }
+    vec![]
 }
 
 fn local_oracle(tm: &TypeMap, args: &[Sexp]) -> Sexp {
@@ -210,28 +316,66 @@ fn local_oracle(tm: &TypeMap, args: &[Sexp]) -> Sexp {
     if b.has_error() {
         return fail(format!("fault-free document has errors: {:?}", b.diags.iter().map(|d| d.message.clone()).collect::<Vec<_>>()));
     }
-    let inside: Vec<&env::Diag> = a.diags.iter().filter(|d| d.is_error && f.range.0 <= d.start && d.end <= f.range.1).collect();
-    if f.reported.2 {
-        if !inside.iter().any(|d| d.message.contains(&f.message)) {
-            return fail(format!("fault {}: error '{}' not reported in omit mode; got {:?}", f.name, f.message, a.diags.iter().map(|d| d.message.clone()).collect::<Vec<_>>()));
-        }
+    let inside = |t: &env::Translation| -> Vec<String> { t.diags.iter().filter(|d| d.is_error && f.range.0 <= d.start && d.end <= f.range.1).map(|d| d.message.clone()).collect() };
+    let omit_inside = inside(&a);
+    if f.reported.2 && !omit_inside.iter().any(|m| m.contains(&f.message)) {
+        return fail(format!("fault {}: error '{}' not reported in omit mode; got {:?}", f.name, f.message, a.diags.iter().map(|d| d.message.clone()).collect::<Vec<_>>()));
     }
     let (ta, tb) = (xml::parse(ua).expect("well-formed"), xml::parse(ub).expect("well-formed"));
-    let (mut ca, mut cb) = (String::new(), String::new());
-    let (mut own_a, mut own_b) = (BTreeSet::new(), BTreeSet::new());
-    canon(&ta, &ids, &at, &mut ca, &mut own_a);
-    canon(&tb, &ids, &at, &mut cb, &mut own_b);
+    let render = |t: &xml::Element, o: CanonOpts| {
+        let (mut s, mut own) = (String::new(), BTreeSet::new());
+        canon(t, &ids, &at, o, 0, &mut s, &mut own);
+        (s, own)
+    };
+    let ((ca, own_a), (cb, own_b)) = (render(&ta, CanonOpts::default()), render(&tb, CanonOpts::default()));
+    // failures of the known classes are reported last, so that any other difference is reported first
+    let mut known: Option<String> = None;
     if ca != cb {
-        // first difference, for the report
-        let p = ca.bytes().zip(cb.bytes()).position(|(x, y)| x != y).unwrap_or(ca.len().min(cb.len()));
-        let ctx = |s: &str| s[p.saturating_sub(80)..(p + 80).min(s.len())].to_owned();
-        return fail(format!("fault {} at '{at}': form differs outside the faulted object: …{}… vs …{}…", f.name, ctx(&ca), ctx(&cb)));
+        let cells = CanonOpts { blank_sibling_cells: true, ..Default::default() };
+        let sep = CanonOpts { as_separator: true, ..Default::default() };
+        let exists = |t: &xml::Element| ledger::find_object(t, &at).is_some();
+        if !at.is_empty() && render(&ta, cells).0 == render(&tb, cells).0 {
+            let (xa, xb) = (cells_around(&ta, &at), cells_around(&tb, &at));
+            let moved: Vec<String> = xa.iter().zip(&xb).filter(|(x, y)| x != y && x.0 != at).map(|(x, y)| format!("'{}' ({},{}) -> ({},{})", if ids.contains(&y.0) { y.0.as_str() } else { "_" }, y.1, y.2, x.1, x.2)).collect();
+            known = Some(format!("fault {} at '{at}': sibling moved: {} after '{at}' lost its attached row/column", f.name, moved.join(", ")));
+        } else if !at.is_empty() && exists(&ta) != exists(&tb) && render(&ta, sep).0 == render(&tb, sep).0 {
+            known = Some(format!("fault {} at '{at}': object changed kind: static separator '{at}' became an action", f.name));
+        } else {
+            // first difference, for the report
+            let p = ca.bytes().zip(cb.bytes()).position(|(x, y)| x != y).unwrap_or(ca.len().min(cb.len()));
+            let ctx = |s: &str| {
+                let (mut lo, mut hi) = (p.saturating_sub(80), (p + 80).min(s.len()));
+                while !s.is_char_boundary(lo) {
+                    lo -= 1;
+                }
+                while !s.is_char_boundary(hi) {
+                    hi += 1;
+                }
+                s[lo..hi].to_owned()
+            };
+            return fail(format!("fault {} at '{at}': form differs outside the faulted object: …{}… vs …{}…", f.name, ctx(&ca), ctx(&cb)));
+        }
     }
     // the faulted object loses at most its own values (an empty group of the planted member may appear)
-    for p in &own_a {
-        if !own_b.contains(p) && *p != lost {
-            return fail(format!("fault {} at '{at}': property {p} appears only in the faulted run", f.name));
+    if known.is_none() {
+        for p in &own_a {
+            if !own_b.contains(p) && *p != lost {
+                return fail(format!("fault {} at '{at}': property {p} appears only in the faulted run", f.name));
+            }
         }
+    }
+    // every error is still reported: what generate mode reports inside the planted binding, omit mode must report too
+    if !f.reported.2 && omit_inside.is_empty() {
+        let g = env::translate(tm, &src, "MyType", Mode::Generate);
+        let gen_inside = inside(&g);
+        if let Some(m) = gen_inside.first() {
+            if known.is_none() {
+                known = Some(format!("fault {} at '{at}': error reported in generate mode only (C++ pass): '{m}'; omit mode reports nothing for this binding", f.name));
+            }
+        }
+    }
+    if let Some(k) = known {
+        return fail(k);
     }
     node("ok", vec![atom("errors"), num(a.diags.len()), atom("lost"), num(own_b.difference(&own_a).count())])
 }
